@@ -1,9 +1,24 @@
 from vf.propdefs import COMMON_TRUST
 
+# Kani stand-in for unit dbwrap's CacheDB::has_storage(_ref) obligations (same harness dicts as props/C20.py `_KANI_CACHEDB`; crate
+# kani/kcachedb includes the REAL in_memory_db.rs by #[path]).  BOUNDED: never counted as proved; it decides has_storage_ref rewritten with
+# iterator adapters / closures, which the Verus unit can only report as UNDECIDED (independent seeds C20-1, C21-1).
+_KCB = ("one concrete queried address; the cache holds at most one account (the queried one or one other) with at most two slots under "
+        "concrete keys (address / keys fixed so that CBMC constant-folds the std HashMap probes under a fixed SipHash seed); symbolic: "
+        "AccountState (all four), every bit of the slot values / cached balance, nonce, code hash, the inner database's answers (Ok / Err); "
+        "AccountInfo.code == None; unwind 34")
+_KCB_ARGS = ["--no-assertion-reach-checks", "--cbmc-args", "--max-field-sensitivity-array-size", "2048"]
+_KANI_CACHEDB = [dict(crate="kcachedb", harness=f"cachedb::{h}", bounded=True, bound=_KCB, timeout=600, mem_gb=8, args=_KCB_ARGS)
+                 for h in ("has_storage_not_cached", "has_storage_cached_0", "has_storage_cached_1")]
+_KANI_CACHEDB += [dict(crate="kcachedb", harness=f"cachedb::{h}", bounded=True, bound=_KCB, timeout=600, mem_gb=8, args=_KCB_ARGS,
+                       thorough_only=True) for h in ("has_storage_cached_2", "has_storage_other_cached_1")]
+
 PROP = dict(
     level='proof',
+    engine='verus+kani',
     units=['journal'],
     aux_units=['dbwrap', 'frames'],  # obligations this property also rests on (their finding twins belong to other properties)
+    kani=_KANI_CACHEDB,
     technique='Verus contract on create_account_checkpoint (journal-level part of C21)',
     level_text="UNIT journal: crates/revm/src/journaled_state.rs on the REAL JournaledState / Account / AccountInfo / EvmStorageSlot / JournalEntry (declared transparent; HashMap/Vec through vstd views).  PROOF: create_account_checkpoint returns Err(CreateCollision) IF AND ONLY IF the target's code_hash != KECCAK_EMPTY or nonce != 0 or the address_has_storage argument is true, and then NOTHING changed (jv_eq(final, old): the checkpoint taken at entry is reverted; depth, journal length, logs, state as before); otherwise Ok / Err(OverflowPayment) as described in C08.",
     level_note='Relative to the ASSUMED driver loop of checkpoint_revert (see C06). NOT here: that make_create_frame / make_eofcreate_frame pass db.has_storage(address) (unit frames) and the database layers forwarding has_storage (Kani, C20).',
